@@ -275,9 +275,13 @@ def run_design(sh, case):
 # near-miss stream: single statement blocks with one perturbed width
 # ---------------------------------------------------------------------------
 NM_TMPL = """from pymtl3 import *
+@bitstruct
+class NMP:
+  x: mk_bits({wa})
+  y: mk_bits(4)
 class NM(Component):
   def construct(s):
-    s.a = InPort({wa}); s.b = InPort({wb}); s.c = InPort(1); s.o = OutPort({wo}); s.o1 = OutPort(1)
+    s.a = InPort({wa}); s.b = InPort({wb}); s.c = InPort(1); s.o = OutPort({wo}); s.o1 = OutPort(1); s.os = OutPort(NMP)
     @update
     def up():
       {stmt}
@@ -288,7 +292,7 @@ def gen_nearmiss(rng):
   """-> (source, description).  half of them are exactly well-typed, the others off by one somewhere"""
   w = rng.choice([1, 2, 3, 4, 7, 8, 9, 16, 31, 32, 33, 48, 49, 50, 63, 64, 65, 100])
   d = rng.choice([0, 0, 1, -1]) if w > 1 else rng.choice([0, 1])
-  shape = rng.randrange(23)
+  shape = rng.randrange(24)
   wa, wb, wo = w, w + d, w
   lit_k = rng.choice([w - 1, w, w + 1, w, w])
   lit = rng.choice([(1 << lit_k) - 1, 1 << lit_k, (1 << lit_k) + 1]) if lit_k >= 0 else 1
@@ -363,6 +367,11 @@ def gen_nearmiss(rng):
     if rng.random() < 0.5: br.reverse()
     use = rng.choice([f"s.o @= x", f"s.o @= s.a {op} x", f"s.o1 @= s.a {cmp_} x"])
     stmt = f"if s.c:\n        {br[0]}\n      else:\n        {br[1]}\n      {use}"
+  elif shape == 23:
+    # literal arguments of a bitstruct constructor: each must fit its field (field x is w bits wide, y 4 bits)
+    wb = w
+    y = rng.choice([0, 1, 15, 15, 16, 17])
+    stmt = rng.choice([f"s.os @= NMP({lit}, {min(y, 15)})", f"s.os @= NMP({lit & ((1 << w) - 1)}, {y})", f"s.os @= NMP(s.a, {y})"])
   elif shape == 22:
     # explicitly sized constants under an operator: the result keeps the explicit width (and wraps), whatever the folded value
     wb = w
